@@ -968,7 +968,8 @@ def register_all(M):
 
     def deref_box(v):
         if isinstance(v, Agg) and v.ty == "Box":
-            return v.fields[0]
+            from mir_exec import box_ref
+            return box_ref(v)
         return v
 
     def vec_extend(c, m, a):
@@ -1434,7 +1435,8 @@ def register_all(M):
     M.add(r"std::boxed::box_assume_init_into_vec_unsafe::<.*>", box_into_vec)
 
     def box_new(c, m, a):
-        return Agg("Box", None, [new_ref(a[0], True)])
+        from mir_exec import mk_box
+        return mk_box(a[0])
     M.add(r"Box::<.*>::new|alloc::boxed::box_new::<.*>|std::boxed::box_new::<.*>", box_new)
 
     def usize_max(c, m, a):
